@@ -293,7 +293,7 @@ fn enqueue_n1() { check_enqueue::<1>(); }
 #[kani::unwind(5)]
 fn enqueue_n2() { check_enqueue::<2>(); }
 
-//@ harness id=txseg.k.enqueue.n3 kind=bounded props=C01,C14 tier=thorough timeout=1500 bound="N_SEG==3" pairs=txseg.enqueue.wf,txseg.enqueue.view,txseg.enqueue.accepts,txseg.enqueue.frame,txseg.enqueue.safety text="enqueue from any wf queue: wf kept, one fresh undelivered unsent segment appended at absolute offset == old offset, earlier segments untouched"
+//@ harness id=txseg.k.enqueue.n3 kind=bounded props=C01,C14 tier=quick timeout=1200 bound="N_SEG==3" pairs=txseg.enqueue.wf,txseg.enqueue.view,txseg.enqueue.accepts,txseg.enqueue.frame,txseg.enqueue.safety text="enqueue from any wf queue: wf kept, one fresh undelivered unsent segment appended at absolute offset == old offset, earlier segments untouched"
 #[kani::proof]
 #[kani::unwind(6)]
 fn enqueue_n3() { check_enqueue::<3>(); }
@@ -313,7 +313,7 @@ fn pop_mtu_probe_n1() { check_pop_mtu_probe::<1>(); }
 #[kani::unwind(5)]
 fn pop_mtu_probe_n2() { check_pop_mtu_probe::<2>(); }
 
-//@ harness id=txseg.k.pop_mtu_probe.n3 kind=bounded props=C01,C06,C14 tier=thorough timeout=1500 bound="N_SEG==3" pairs=txseg.pop_probe.wf,txseg.pop_probe.when,txseg.pop_probe.view,txseg.pop_probe.noop,txseg.pop_probe.frame,txseg.pop_mtu_probe.safety text="pop_mtu_probe from any wf queue: wf kept (byte counters restored), pops iff the last segment is an undelivered probe with that seq_nr, otherwise identity"
+//@ harness id=txseg.k.pop_mtu_probe.n3 kind=bounded props=C01,C06,C14 tier=quick timeout=1200 bound="N_SEG==3" pairs=txseg.pop_probe.wf,txseg.pop_probe.when,txseg.pop_probe.view,txseg.pop_probe.noop,txseg.pop_probe.frame,txseg.pop_mtu_probe.safety text="pop_mtu_probe from any wf queue: wf kept (byte counters restored), pops iff the last segment is an undelivered probe with that seq_nr, otherwise identity"
 #[kani::proof]
 #[kani::unwind(6)]
 fn pop_mtu_probe_n3() { check_pop_mtu_probe::<3>(); }
@@ -333,7 +333,7 @@ fn pop_expired_n1() { check_pop_expired::<1>(); }
 #[kani::unwind(5)]
 fn pop_expired_n2() { check_pop_expired::<2>(); }
 
-//@ harness id=txseg.k.pop_expired.n3 kind=bounded props=C01,C06,C14 tier=thorough timeout=1500 bound="N_SEG==3" pairs=txseg.pop_expired.wf,txseg.pop_expired.expired,txseg.pop_expired.not_expired,txseg.pop_expired.empty,txseg.pop_expired.noop_counters,txseg.pop_expired.frame,txseg.pop_expired_mtu_probe.safety text="pop_expired_mtu_probe from any wf queue: wf kept (byte counters restored on Expired), Expired only for an undelivered probe whose retransmit count reached the limit while the RTO fired; rewind_to is the sequence number before the probe"
+//@ harness id=txseg.k.pop_expired.n3 kind=bounded props=C01,C06,C14 tier=quick timeout=1200 bound="N_SEG==3" pairs=txseg.pop_expired.wf,txseg.pop_expired.expired,txseg.pop_expired.not_expired,txseg.pop_expired.empty,txseg.pop_expired.noop_counters,txseg.pop_expired.frame,txseg.pop_expired_mtu_probe.safety text="pop_expired_mtu_probe from any wf queue: wf kept (byte counters restored on Expired), Expired only for an undelivered probe whose retransmit count reached the limit while the RTO fired; rewind_to is the sequence number before the probe"
 #[kani::proof]
 #[kani::unwind(6)]
 fn pop_expired_n3() { check_pop_expired::<3>(); }
@@ -353,7 +353,7 @@ fn remove_cum_n1() { check_remove_cum::<1>(); }
 #[kani::unwind(5)]
 fn remove_cum_n2() { check_remove_cum::<2>(); }
 
-//@ harness id=txseg.k.remove_cum.n3 kind=bounded props=C01,C06,C10,C09 tier=thorough timeout=1500 bound="N_SEG==3" text="remove_up_to_ack, cumulative ACK (header without SACK), any ack_nr incl. ACKs of data never sent and stale ACKs: no panic, wf kept, exactly the acked prefix (plus delivered run) removed, snd_una/removed_offset/acked_bytes agree, retained suffix unchanged"
+//@ harness id=txseg.k.remove_cum.n3 kind=bounded props=C01,C06,C10,C09 tier=quick timeout=1200 bound="N_SEG==3" text="remove_up_to_ack, cumulative ACK (header without SACK), any ack_nr incl. ACKs of data never sent and stale ACKs: no panic, wf kept, exactly the acked prefix (plus delivered run) removed, snd_una/removed_offset/acked_bytes agree, retained suffix unchanged"
 #[kani::proof]
 #[kani::unwind(6)]
 fn remove_cum_n3() { check_remove_cum::<3>(); }
@@ -373,7 +373,7 @@ fn flight_n1() { check_flight::<1>(); }
 #[kani::unwind(5)]
 fn flight_n2() { check_flight::<2>(); }
 
-//@ harness id=txseg.k.flight.n3 kind=bounded props=C05,C10,C09 tier=thorough timeout=1500 bound="N_SEG==3" text="calc_flight_size(last_sent) == sum of payload sizes of undelivered segments with index <= last_sent - snd_una (0 when behind); <= total queued bytes; no panic for any last_sent"
+//@ harness id=txseg.k.flight.n3 kind=bounded props=C05,C10,C09 tier=quick timeout=1200 bound="N_SEG==3" text="calc_flight_size(last_sent) == sum of payload sizes of undelivered segments with index <= last_sent - snd_una (0 when behind); <= total queued bytes; no panic for any last_sent"
 #[kani::proof]
 #[kani::unwind(6)]
 fn flight_n3() { check_flight::<3>(); }
@@ -393,17 +393,17 @@ fn iter_n1() { check_iter::<1>(); }
 #[kani::unwind(5)]
 fn iter_n2() { check_iter::<2>(); }
 
-//@ harness id=txseg.k.iter.n3 kind=bounded props=C01,C06,C10,C09 tier=thorough timeout=1500 bound="N_SEG==3" text="iter_mut_for_sending(start): yields exactly the undelivered segments at index >= max(0, start - snd_una), in order, with seq_nr == snd_una + index and payload_offset == absolute offset - removed_offset == sum of earlier sizes; a delivered (acked) segment is never yielded; checked_sub().unwrap() never panics"
+//@ harness id=txseg.k.iter.n3 kind=bounded props=C01,C06,C10,C09 tier=quick timeout=1200 bound="N_SEG==3" text="iter_mut_for_sending(start): yields exactly the undelivered segments at index >= max(0, start - snd_una), in order, with seq_nr == snd_una + index and payload_offset == absolute offset - removed_offset == sum of earlier sizes; a delivered (acked) segment is never yielded; checked_sub().unwrap() never panics"
 #[kani::proof]
 #[kani::unwind(6)]
 fn iter_n3() { check_iter::<3>(); }
 
-//@ harness id=txseg.k.calc_pipe.n0 kind=bounded props=C10 tier=thorough timeout=1500 bound="N_SEG==0" text="calc_pipe for any high_rxt and any high_data <= snd_una + queue length (A12): no panic; pipe <= 2 * queued bytes; sizes/offsets untouched"
+//@ harness id=txseg.k.calc_pipe.n0 kind=bounded props=C10 tier=quick timeout=1200 bound="N_SEG==0" text="calc_pipe for any high_rxt and any high_data <= snd_una + queue length (A12): no panic; pipe <= 2 * queued bytes; sizes/offsets untouched"
 #[kani::proof]
 #[kani::unwind(3)]
 fn calc_pipe_n0() { check_calc_pipe::<0>(); }
 
-//@ harness id=txseg.k.calc_pipe.n1 kind=bounded props=C10 tier=thorough timeout=1500 bound="N_SEG==1" text="calc_pipe for any high_rxt and any high_data <= snd_una + queue length (A12): no panic; pipe <= 2 * queued bytes; sizes/offsets untouched"
+//@ harness id=txseg.k.calc_pipe.n1 kind=bounded props=C10 tier=quick timeout=1200 bound="N_SEG==1" text="calc_pipe for any high_rxt and any high_data <= snd_una + queue length (A12): no panic; pipe <= 2 * queued bytes; sizes/offsets untouched"
 #[kani::proof]
 #[kani::unwind(4)]
 fn calc_pipe_n1() { check_calc_pipe::<1>(); }
